@@ -38,9 +38,10 @@ VARIABLES scen,    \* [Conns -> scenario]  the environment's script for a connec
           hlog,    \* ghost: result each reply attempt reported to the handler
           cut,     \* ghost: indices of frames cut from the stream, in order
           active,  \* the service's connection counter
-          lost     \* ghost: frames a write accepted although the peer was already gone
+          lost,    \* ghost: frames a write accepted although the peer's close had completed
+          cdone    \* the client's close() (abort) has returned: from now on its socket refuses everything
 
-vars == <<scen, wire, rbuf, cseg, peer, pc, cur, hpos, hfail, hc, out, disp, hlog, cut, active, lost>>
+vars == <<scen, wire, rbuf, cseg, peer, pc, cur, hpos, hfail, hc, out, disp, hlog, cut, active, lost, cdone>>
 
 ---------------------------------------------------------------------------
 (* Strings the code takes apart are sequences of one-character strings.    *)
@@ -165,7 +166,7 @@ InitWith(S) ==
   /\ disp = [c \in Conns |-> <<>>]
   /\ hlog = [c \in Conns |-> <<>>]
   /\ cut = [c \in Conns |-> <<>>]
-  /\ active = Cardinality(Conns) /\ lost = [c \in Conns |-> 0]
+  /\ active = Cardinality(Conns) /\ lost = [c \in Conns |-> 0] /\ cdone = [c \in Conns |-> FALSE]
 
 ---------------------------------------------------------------------------
 (* Environment *)
@@ -178,7 +179,7 @@ ClientWrite(c) ==
          S == Symbols(scen[c].frames) IN
      wire' = [wire EXCEPT ![c] = @ \o SubSeq(S, a + 1, a + n)]
   /\ cseg' = [cseg EXCEPT ![c] = @ + 1]
-  /\ UNCHANGED <<scen, rbuf, peer, pc, cur, hpos, hfail, hc, out, disp, hlog, cut, active, lost>>
+  /\ UNCHANGED <<scen, rbuf, peer, pc, cur, hpos, hfail, hc, out, disp, hlog, cut, active, lost, cdone>>
 
 (* the client ends after its last write - or earlier, when a write failed  *)
 (* because the service had already closed the connection                  *)
@@ -186,7 +187,12 @@ ClientEnd(c) ==
   /\ peer[c] = "open"
   /\ cseg[c] = Len(scen[c].segs) \/ pc[c] \in {"closed", "released"}
   /\ peer' = [peer EXCEPT ![c] = IF scen[c].endhow = "abort" THEN "gone" ELSE "halfclosed"]
-  /\ UNCHANGED <<scen, wire, rbuf, cseg, pc, cur, hpos, hfail, hc, out, disp, hlog, cut, active, lost>>
+  /\ UNCHANGED <<scen, wire, rbuf, cseg, pc, cur, hpos, hfail, hc, out, disp, hlog, cut, active, lost, cdone>>
+
+ClientClosed(c) ==      \* the abort is a close(): it takes a moment; the peer state "gone" only says it has begun
+  /\ peer[c] = "gone" /\ ~cdone[c]
+  /\ cdone' = [cdone EXCEPT ![c] = TRUE]
+  /\ UNCHANGED <<scen, wire, rbuf, cseg, peer, pc, cur, hpos, hfail, hc, out, disp, hlog, cut, active, lost>>
 
 ---------------------------------------------------------------------------
 (* Service *)
@@ -202,7 +208,7 @@ SvcFill(c) ==
   /\ \E n \in 1..Len(wire[c]) :
        /\ rbuf' = [rbuf EXCEPT ![c] = @ \o SubSeq(wire[c], 1, n)]
        /\ wire' = [wire EXCEPT ![c] = SubSeq(@, n + 1, Len(@))]
-  /\ UNCHANGED <<scen, cseg, peer, pc, cur, hpos, hfail, hc, out, disp, hlog, cut, active, lost>>
+  /\ UNCHANGED <<scen, cseg, peer, pc, cur, hpos, hfail, hc, out, disp, hlog, cut, active, lost, cdone>>
 
 (* Result of writing built-in reply frames w: if the peer is gone the write *)
 (* may fail (EPIPE) => HandleMessage returns the error => close.           *)
@@ -235,7 +241,7 @@ SvcFrame(c) ==
              \/ /\ peer[c] = "gone" /\ w # <<>>        \* write fails
                 /\ pc' = [pc EXCEPT ![c] = "closing"]
                 /\ UNCHANGED <<cur, hpos, hc, out, disp>>
-  /\ UNCHANGED <<scen, wire, cseg, peer, hfail, hlog, active, lost>>
+  /\ UNCHANGED <<scen, wire, cseg, peer, hfail, hlog, active, lost, cdone>>
 
 SvcEOF(c) ==
   /\ pc[c] = "reading"
@@ -243,7 +249,7 @@ SvcEOF(c) ==
   /\ wire[c] = <<>>
   /\ peer[c] # "open"
   /\ pc' = [pc EXCEPT ![c] = "closing"]
-  /\ UNCHANGED <<scen, wire, rbuf, cseg, peer, cur, hpos, hfail, hc, out, disp, hlog, cut, active, lost>>
+  /\ UNCHANGED <<scen, wire, rbuf, cseg, peer, cur, hpos, hfail, hc, out, disp, hlog, cut, active, lost, cdone>>
 
 HStep(c) ==
   /\ pc[c] = "handler"
@@ -253,8 +259,8 @@ HStep(c) ==
      \* a handler that waits for the other connections' clients proceeds once they have ended their streams
      /\ (call.script[hpos[c]].k = "wait" => \A d \in Conns \ {c} : peer[d] # "open")
      /\ LET a == Attempt(cur[c], call, call.script[hpos[c]], hc[c]) IN
-        \/ /\ (peer[c] = "gone" /\ a.w # <<>>) => lost[c] < LostCap     \* a vanished peer makes writes fail - at once, or after little
-           /\ lost' = [lost EXCEPT ![c] = IF peer[c] = "gone" /\ a.w # <<>> THEN @ + 1 ELSE @]
+        \/ /\ (cdone[c] /\ a.w # <<>>) => lost[c] < LostCap     \* once the peer's close has completed, writes fail - at once, or after little
+           /\ lost' = [lost EXCEPT ![c] = IF cdone[c] /\ a.w # <<>> THEN @ + 1 ELSE @]
            /\ out' = [out EXCEPT ![c] = @ \o a.w]
            /\ hlog' = [hlog EXCEPT ![c] = Append(@, [f |-> cur[c], k |-> hpos[c], res |-> a.res])]
            /\ hpos' = [hpos EXCEPT ![c] = @ + 1]
@@ -264,7 +270,7 @@ HStep(c) ==
            /\ hlog' = [hlog EXCEPT ![c] = Append(@, [f |-> cur[c], k |-> hpos[c], res |-> "ioerr"])]
            /\ hfail' = [hfail EXCEPT ![c] = TRUE]
            /\ UNCHANGED <<out, hpos, hc, lost>>
-  /\ UNCHANGED <<scen, wire, rbuf, cseg, peer, pc, cur, disp, cut, active>>
+  /\ UNCHANGED <<scen, wire, rbuf, cseg, peer, pc, cur, disp, cut, active, cdone>>
 
 (* the scripted handler returns: the I/O error it saw, else its scripted value *)
 HRetVal(c) == IF hfail[c] THEN "err" ELSE scen[c].frames[cur[c]].ret
@@ -274,22 +280,22 @@ HReturn(c) ==
   /\ hfail[c] \/ hpos[c] > Len(scen[c].frames[cur[c]].script)
   /\ pc' = [pc EXCEPT ![c] = IF HRetVal(c) = "nil" THEN "reading" ELSE "closing"]
   /\ hfail' = [hfail EXCEPT ![c] = FALSE]
-  /\ UNCHANGED <<scen, wire, rbuf, cseg, peer, cur, hpos, hc, out, disp, hlog, cut, active, lost>>
+  /\ UNCHANGED <<scen, wire, rbuf, cseg, peer, cur, hpos, hc, out, disp, hlog, cut, active, lost, cdone>>
 
 SvcCloseConn(c) ==
   /\ pc[c] = "closing"
   /\ pc' = [pc EXCEPT ![c] = "closed"]
-  /\ UNCHANGED <<scen, wire, rbuf, cseg, peer, cur, hpos, hfail, hc, out, disp, hlog, cut, active, lost>>
+  /\ UNCHANGED <<scen, wire, rbuf, cseg, peer, cur, hpos, hfail, hc, out, disp, hlog, cut, active, lost, cdone>>
 
 SvcRelease(c) ==
   /\ pc[c] = "closed"
   /\ pc' = [pc EXCEPT ![c] = "released"]
   /\ active' = active - 1
-  /\ UNCHANGED <<scen, wire, rbuf, cseg, peer, cur, hpos, hfail, hc, out, disp, hlog, cut, lost>>
+  /\ UNCHANGED <<scen, wire, rbuf, cseg, peer, cur, hpos, hfail, hc, out, disp, hlog, cut, lost, cdone>>
 
 SvcNext(c) == SvcFill(c) \/ SvcFrame(c) \/ SvcEOF(c) \/ HStep(c) \/ HReturn(c)
               \/ SvcCloseConn(c) \/ SvcRelease(c)
-EnvNext(c) == ClientWrite(c) \/ ClientEnd(c)
+EnvNext(c) == ClientWrite(c) \/ ClientEnd(c) \/ ClientClosed(c)
 Next == \E c \in Conns : SvcNext(c) \/ EnvNext(c)
 
 ---------------------------------------------------------------------------
